@@ -34,13 +34,19 @@ EXC = {
     'ValueError': ValueError, 'KeyError': KeyError, 'TypeError': TypeError, 'AssertionError': AssertionError,
     'RuntimeError': RuntimeError, 'ZzCustomBoom': ZzCustomBoom, 'ZzLookup': ZzLookup, 'OSError': OSError,
     'ZeroDivisionError': ZeroDivisionError, 'AttributeError': AttributeError, 'StopIteration': StopIteration,
-    'UnicodeDecodeError': None,  # built specially
+    'UnicodeDecodeError': None, 'ValidationError': None, 'DeserializationError': None,  # built specially
 }
 
 
 def make_exc(name: str, marker: str) -> Exception:
     if name == 'UnicodeDecodeError':
         return UnicodeDecodeError('utf-8', b'\xff', 0, 1, marker)
+    if name == 'ValidationError':       # pjrpc's own parameter-validation exception raised from INSIDE a method body
+        from pjrpc.server import validators
+        return validators.ValidationError(marker)
+    if name == 'DeserializationError':  # a library (non protocol) exception raised from inside a method body
+        from pjrpc.common.exceptions import DeserializationError
+        return DeserializationError(marker)
     return EXC[name](marker)
 
 
@@ -212,11 +218,13 @@ def build_view(mspec: Dict[str, Any], extra_members: bool = False) -> Any:
         meth = f"    async def {py}({src}):\n        return await _RT.acall({key!r}, {bound}, self._ctx)\n"
     else:
         meth = f"    def {py}({src}):\n        return _RT.call({key!r}, {bound}, self._ctx)\n"
+    ctor_extra = "        raise RuntimeError('view constructor failed')\n" if mspec.get('ctor_raises') else ''
     cls_src = (
         f"class View_{py}(ViewMixin):\n"
         f"    def __init__(self, context=NOCTX):\n"
         f"        super().__init__()\n"
         f"        self._ctx = context\n"
+        f"{ctor_extra}"
         f"{meth}"
     )
     cache_key = cls_src
